@@ -76,6 +76,7 @@ SpecStep ==
     [] s.op = "unsubscribe" -> Unsubscribe(s.a, s.arg)
     [] s.op = "fire"        -> s.tm \in DOMAIN hmap /\ \E tm \in timers : TimerKey(tm) = hmap[s.tm] /\ FireTimer(tm)
     [] s.op = "idle"        -> Idle(s.dt)
+    [] s.op = "pokeid"      -> PokeId(s.v)
     [] s.op = "lost"        -> Lost(s.a, s.reason)
     [] OTHER -> FALSE
 
